@@ -11,7 +11,8 @@ namespace sim
 {
 
 enum Api { API_PARSE = 0, API_CONTEXT_PARSE = 1, API_DIAG = 2, API_MATCH = 3,
-           API_CONTEXT_PARSE_TEMP = 4 };   // context_parse with a TEMPORARY context object (Context deduced as a non-reference)
+           API_CONTEXT_PARSE_TEMP = 4,
+           API_MATCHER_DEBUG = 5 };       // regex::expr<P>::debug_parse(stream) / write_diag_str(stream): the library's own pattern parser, verbose, at run time   // context_parse with a TEMPORARY context object (Context deduced as a non-reference)
 enum BufKind { BUF_SIM = 0, BUF_STRING = 1, BUF_VIEW = 2, BUF_CSTRING = 3 };
 enum StreamKind { STR_NONE = 0, STR_SIM = 1, STR_OSS = 2 };
 
